@@ -147,6 +147,7 @@ func main() {
 	if s := os.Getenv("VERIF_SEED"); s != "" {
 		opts.Seed, _ = strconv.Atoi(s)
 	}
+	applyExtraExplanations()
 	args := flag.Args()
 	if len(args) == 0 {
 		fmt.Fprintln(os.Stderr, "usage: checker [flags] check <ID>... | all | list")
